@@ -4,6 +4,7 @@ import math
 import numpy as np
 
 from .. import core, gemini_lib as gl
+from . import c01
 
 
 def closed_P(rs, n, K, kind):
@@ -34,6 +35,7 @@ def run(ctx):
     ctx.rule = ("12 configurations x shapes x simplex points incl. the closed simplex (one-hot rows, zero columns) x random "
                 "sample/cluster permutations, appended empty cluster, sample-independent predictions, balanced hard partitions; "
                 "non-trivial = P not constant across rows; slack on the boundary = 4*K*eps*(1+|log eps|) * scale (DESIGN 12)")
+    c01.regen(ctx)          # Gen/Geminis.lean (and the registry) follow the current source before the theorems are re-checked
     ctx.do_prove()
     eps = 1e-12
     reps = 6 if ctx.tier == "quick" else 200
